@@ -19,6 +19,7 @@ import operator
 from .. import tokvals as TV
 from ..core import MachineryError
 from ..par import pmap
+from ..sidebyside import in_parallel
 
 META = {
     "title": "Collections computed together give the same values as computed alone",
@@ -229,10 +230,10 @@ def to_record(i, plan, rec):
 def classify(plan, clauses, rec):
     if "Raised" in clauses:
         return "Raised:%s:%s" % (rec["raised"].split(":")[0], plan["fam"])
+    if "Interleaved" in clauses:
+        return "Together:interleaved-kinds"
     if "KeyClash" in clauses:
         return "Together:key-clash:%s" % plan["fam"]
-    if "Permuted" in clauses:
-        return "Together:interleaved-kinds"
     kinds = {c["kind"] for c in rec["colls"]}
     return "Together:other:%s:%s:%s" % (plan["fam"], plan["prog"], "mixed-kinds" if len(kinds) > 1 else "one-kind")
 
@@ -243,6 +244,8 @@ def parse_clauses(text):
 
 def execute(ctx, plans, count=True):
     """Run plans, let TLC decide the records; returns the list of (plan, clauses, rec) rejected."""
+    import os
+    TV.use_tmp(os.path.join(ctx.scratch, "mm"))
     results = pmap(run_plan, plans, chunk=8)
     records, byid = [], {}
     for i, (plan, rec) in enumerate(zip(plans, results)):
@@ -266,24 +269,26 @@ def execute(ctx, plans, count=True):
     return bad, len(records)
 
 
-def design_check(ctx):
+def model_jobs(ctx, maxplan):
+    """-> callables (models written here, in the calling thread): three design checks and the plan enumeration."""
     consts = {"NKeys": 2, "NVals": 2, "MaxTuple": 3, "MaxPlan": 2}
-    spec, cfg = ctx.model(ctx.spec("graph", "KeySpaceMC.tla"), dict(consts, Impl="positional"), init="DInit", next_="DNext",
-                          invariants=["TogetherEqualsAlone", "BlameIsRight"])
-    ctx.tlc(spec, cfg, label="design(Impl=positional)", timeout=900)
-    spec, cfg = ctx.model(ctx.spec("graph", "KeySpaceMC.tla"), dict(consts, Impl="grouped"), init="DInit", next_="DNext",
-                          invariants=["TogetherEqualsAlone"])
-    r = ctx.tlc(spec, cfg, label="design(Impl=grouped) must fail", allow_violation=True, count=False, timeout=900)
-    if "TogetherEqualsAlone" not in r.violated:
-        raise MachineryError("vacuity: TLC no longer finds the regrouping counterexample in the compute model")
+    mc = ctx.spec("graph", "KeySpaceMC.tla")
+    s1, c1 = ctx.model(mc, dict(consts, Impl="positional"), init="DInit", next_="DNext", invariants=["TogetherEqualsAlone", "BlameIsRight"])
+    s2, c2 = ctx.model(mc, dict(consts, Impl="grouped"), init="DInit", next_="DNext", invariants=["TogetherEqualsAlone"])
+    s3, c3 = ctx.model(mc, dict(consts, Impl="grouped"), init="DInit", next_="DNext", invariants=["GroupedWrongOnlyIfInterleaved", "BlameIsRight"])
+    s4, c4 = ctx.model(mc, {"Impl": "positional", "NKeys": 1, "NVals": 1, "MaxTuple": 1, "MaxPlan": maxplan}, init="PInit", next_="PNext")
 
+    def must_fail():
+        r = ctx.tlc(s2, c2, label="design(Impl=grouped) must fail", allow_violation=True, count=False, timeout=900)
+        if "TogetherEqualsAlone" not in r.violated:
+            raise MachineryError("vacuity: TLC no longer finds the regrouping counterexample in the compute model")
 
-def enumerate_plans(ctx, maxplan):
-    spec, cfg = ctx.model(ctx.spec("graph", "KeySpaceMC.tla"), {"Impl": "positional", "NKeys": 1, "NVals": 1, "MaxTuple": 1, "MaxPlan": maxplan},
-                          init="PInit", next_="PNext")
-    plans, _ = ctx.tlc_cases(spec, cfg, label="plans", timeout=1800)
-    plans.sort(key=lambda p: json.dumps(p, sort_keys=True))
-    return plans
+    def plans():
+        out, _ = ctx.tlc_cases(s4, c4, label="plans", timeout=1800)
+        out.sort(key=lambda p: json.dumps(p, sort_keys=True))
+        return out
+    return [lambda: ctx.tlc(s1, c1, label="design(Impl=positional)", timeout=900), must_fail,
+            lambda: ctx.tlc(s3, c3, label="design(Impl=grouped): wrong only if interleaved", timeout=900), plans]
 
 
 def report(ctx, bad):
@@ -295,8 +300,7 @@ def report(ctx, bad):
 
 
 def run(ctx):
-    design_check(ctx)
-    plans = enumerate_plans(ctx, ctx.pick(3, 4))
+    plans = in_parallel(model_jobs(ctx, ctx.pick(3, 4)))[3]
     total = len(plans)
     cap = ctx.pick(500, 6000)
     if len(plans) > cap:
@@ -381,6 +385,8 @@ def _with_mutant(args):
 
 def selftest(ctx):
     ok = True
+    import os
+    TV.use_tmp(os.path.join(ctx.scratch, "mm"))
     names = [None] + list(MUTANTS)
     outs = pmap(_with_mutant, [(n, SELFTEST_PLANS) for n in names], procs=len(names), chunk=1, always=True)
     spec, cfg = ctx.model(ctx.spec("graph", "KeySpaceTrace.tla"), {"Impl": "positional"})
